@@ -84,6 +84,11 @@ pub fn run(case: &Value, ctx: &Ctx) -> Outcome {
                 // the same marginalization delivered with -o onto a file holding an older, LONGER result (e.g. the less
                 // marginalized spectrum of a previous step): the file must hold exactly what stdout got
                 if what == "cli-remove-text" && r.ok() {
+                    // ... and IN PLACE: the input is given by path and -o names the same file (one step of a chain that keeps
+                    // its intermediate result in one file): the input is read before the destination is opened
+                    let (ip, _) = cli::sfs_in_place(ctx, &args, input, "marg");
+                    out.check(ip.ok() && ip.stdout == r.stdout, || "marginalize/cli/in-place".into(),
+                        || json!({"args": args, "code": ip.code, "stderr": ip.stderr, "file_len": ip.stdout.len(), "stdout_len": r.stdout.len()}));
                     let (f, left) = cli::sfs_onto_stale_file(ctx, &args, input, "marg");
                     out.check(f.ok() && !left && f.stdout == r.stdout, || "marginalize/cli/stale-destination".into(),
                         || json!({"args": args, "code": f.code, "stderr": f.stderr, "file_len": f.stdout.len(), "stdout_len": r.stdout.len(), "also_on_stdout": left}));
